@@ -202,6 +202,17 @@ def correspondence(outcome, tier, seed):
                 outcome.disagreements.append({"what": "JSON -> MessagePack (%s): implementation and JSON model differ" % ("slice" if tag == "s" else "reader"),
                                               "input_hex": shared.hx(d)[:4000], "input": d[:200].decode("utf-8", "replace"),
                                               "implementation": "%s %s %s" % (got[0], got[1][:120], gout[:400]), "model": m[:400]})
+    if tier == "thorough":
+        picked = []
+        for i, d in enumerate(ins):
+            m = model.get("%dr" % i, "")
+            mv, _, rest = m.partition(" docs:")
+            if len(d) <= 60 and mv in ("ok", "err") and " " in rest:
+                o = rest.split(" ", 1)[1]
+                picked.append((d, bytes.fromhex(o) if o != "-" else b"", mv == "ok"))
+        step = max(1, len(picked) // 200)
+        shared.kernel_crosscheck(outcome, "json_reader_loop", "Base Utf8 MsgpackModel JsonModel",
+                                 "fun i => let r := json_reader i in (jm_output r, jm_ok r)", picked[::step][:200])
     outcome.traces_validated += 2 * len(ins)
     outcome.evaluations += 2 * len(ins)
     outcome.distinct_nontrivial += nontrivial
